@@ -22,6 +22,10 @@ functions over the two declared bounds, so that the C19 theorems are re-checked 
                      `value` is stored (python equality crosses EXPRESS types, so a membership shortcut taken first lets a
                      wrong-typed value through)
 
+  elementBoundsChecked   check_type also compares the bounds of an element aggregate with the declared ones (helper
+                     `bounds_conform`, called by check_type and by same_base_type); the helper is *executed* on a table of
+                     kinds and bounds and must give the EXPRESS rule (ARRAY identical, LIST/BAG/SET within) on all of them
+
 Supported expression forms: integer literals, bound_1/bound_2 (local or self._bound_N), + - *, unary -, parentheses.
 Anything else raises = broken tie.
 """
@@ -118,7 +122,9 @@ def _helper_mode(fn):
                 and _is_get_type_call(e.args[0], a) and _is_get_type_call(e.args[1], b))
     if is_rec(r):
         return "structuralNoKind"
-    if isinstance(r, ast.BoolOp) and isinstance(r.op, ast.And) and len(r.values) == 2 and is_rec(r.values[1]):
+    if isinstance(r, ast.BoolOp) and isinstance(r.op, ast.And) and len(r.values) in (2, 3) and is_rec(r.values[-1]):
+        if len(r.values) == 3 and ast.unparse(r.values[1]).replace(" ", "") != f"bounds_conform({a},{b})":
+            raise ValueError(f"{fn.name}: unsupported middle conjunct {ast.unparse(r.values[1])}")
         k = ast.unparse(r.values[0]).replace(" ", "")
         if k in (f"type({a})==type({b})", f"type({a})istype({b})", f"type({b})==type({a})", f"type({b})istype({a})"):
             return "structural"
@@ -232,8 +238,43 @@ def _checks_first(fn):
     return ok[0]
 
 
+def _bounds_checked(repo):
+    src = open(os.path.join(repo, TC)).read()
+    tree = ast.parse(src)
+    fns = {n.name: n for n in tree.body if isinstance(n, ast.FunctionDef)}
+    calls = [n for n in ast.walk(fns["check_type"]) if isinstance(n, ast.Call) and isinstance(n.func, ast.Name) and n.func.id == "bounds_conform"]
+    if "bounds_conform" not in fns:
+        if calls:
+            raise ValueError("check_type calls bounds_conform, which is not defined")
+        return False
+    if len(calls) != 1 or [ast.unparse(a) for a in calls[0].args] != ["instance", "expected_type"]:
+        raise ValueError("check_type: expected exactly one bounds_conform(instance, expected_type)")
+    if "same_base_type" in fns and not any(isinstance(n, ast.Call) and isinstance(n.func, ast.Name) and n.func.id == "bounds_conform"
+                                           for n in ast.walk(fns["same_base_type"])):
+        raise ValueError("same_base_type does not compare the bounds of the inner levels")
+    ns = {}
+    exec(compile(ast.Module(body=[fns["bounds_conform"]], type_ignores=[]), "bounds_conform", "exec"), ns)
+    f = ns["bounds_conform"]
+
+    def mock(kind, lo, hi):
+        return type(kind, (), {"bound_1": lambda self: lo, "bound_2": lambda self: hi})()
+    B = [(0, 2), (1, 2), (0, 3), (1, 5), (0, None), (2, None), (0, 0)]
+    for kind in ("ARRAY", "LIST", "BAG", "SET"):
+        for (lo, hi) in B:
+            for (lo2, hi2) in B:
+                if kind == "ARRAY":
+                    want = (lo, hi) == (lo2, hi2)
+                else:
+                    want = lo >= lo2 and (hi2 is None or (hi is not None and hi <= hi2))
+                got = bool(f(mock(kind, lo, hi), mock(kind, lo2, hi2)))
+                if got != want:
+                    raise ValueError(f"bounds_conform({kind}[{lo}:{hi}], {kind}[{lo2}:{hi2}]) = {got}, the EXPRESS rule gives {want}")
+    return True
+
+
 def extract(repo):
     mode = _cmp_mode(repo)
+    bchk = _bounds_checked(repo)
     bi = _builtins(repo)
     src = open(os.path.join(repo, REL)).read()
     tree = ast.parse(src)
@@ -285,6 +326,9 @@ def setAddChecksTypeFirst : Bool := {"true" if first["SET"] else "false"}
 inductive BaseCmp | identity | structural | structuralNoKind
   deriving DecidableEq, Repr
 def elementBaseCmp : BaseCmp := .{mode}
+/-- `check_type` also compares the bounds of an element aggregate with the declared ones, at every level, by the EXPRESS
+rule (`bounds_conform`, executed by the extractor on a table of kinds and bounds) -/
+def elementBoundsChecked : Bool := {"true" if bchk else "false"}
 
 /-- the query methods of the containers -/
 inductive Query | size | hiindex | loindex | hibound | lobound | unique
